@@ -1063,11 +1063,22 @@ impl Mp4TrackWriter {
             // mp4a.esds.es_desc.dec_config.max_bitrate
             // mp4a.esds.es_desc.dec_config.avg_bitrate
         }
-        if let Ok(stco) = StcoBox::try_from(self.trak.mdia.minf.stbl.co64.as_ref().unwrap()) {
-            self.trak.mdia.minf.stbl.stco = Some(stco);
-            self.trak.mdia.minf.stbl.co64 = None;
+        // Hand out a copy and convert the chunk offsets only there: the writer's own table must
+        // stay a co64 (finish_chunk and a repeated write_end rely on it), e.g. when write_end is
+        // tried again after the stream failed.
+        let mut trak = self.trak.clone();
+        if let Some(stco) = trak
+            .mdia
+            .minf
+            .stbl
+            .co64
+            .as_ref()
+            .and_then(|co64| StcoBox::try_from(co64).ok())
+        {
+            trak.mdia.minf.stbl.stco = Some(stco);
+            trak.mdia.minf.stbl.co64 = None;
         }
 
-        Ok(self.trak.clone())
+        Ok(trak)
     }
 }
